@@ -66,7 +66,7 @@ CHECKS = {
    "DESIGN.md §6 C08"),
  "C07": ("exploration", "ENUM+SCHED",
    "bounded-exhaustive enumeration of a (request limit, response limit) x message size x padding x entry point x body framing grid, handler log as oracle; plus exhaustive schedule enumeration (controlled scheduler, stateless DFS) of oversized frames on a backlogged WebSocket connection",
-   "8 limit pairs incl. unequal ones x sizes limit-2..limit+2, 1.5x, 2x, 10x x 3 padding styles x {TowerService HTTP, TowerService WS, the same two with the configuration built limits-first and http_only()/ws_only() last, http::call_with_service_builder, http::call_with_service, ws::connect, Server::start over loopback TCP (HTTP with Content-Length / chunked), Server::start over loopback TCP (WebSocket)} x 6 HTTP framings (Content-Length exact/absent/lying, 1/3/many frames); the message is always a valid call, so 'processed' is observable as 'handler ran once'; over the limit => no handler, -32007 / HTTP error status and the WS connection answers a later call; a second sweep holds the request limit and varies the response limit to show independence. SCHED leg: one WebSocket connection with outgoing buffer capacity 1..3 whose writer task is a scheduling point; oversized frames between ordinary calls in every order of writer progress: each oversized frame is answered -32007, never dispatched, every call answered, connection stays open.",
+   "8 limit pairs incl. unequal ones x sizes limit-2..limit+2, 1.5x, 2x, 10x x 3 padding styles x {TowerService HTTP, TowerService WS, the same two with the configuration built limits-first and http_only()/ws_only() last, http::call_with_service_builder, http::call_with_service, ws::connect, Server::start over loopback TCP (HTTP with Content-Length / chunked), Server::start over loopback TCP (WebSocket), Server::start over loopback TCP spoken to over HTTP/2 (DATA frames with / without content-length)} x 6 HTTP framings (Content-Length exact/absent/lying, 1/3/many frames); the message is always a valid call, so 'processed' is observable as 'handler ran once'; over the limit => no handler, -32007 / HTTP error status and the WS connection answers a later call; a second sweep holds the request limit and varies the response limit to show independence. SCHED leg: one WebSocket connection with outgoing buffer capacity 1..3 whose writer task is a scheduling point; oversized frames between ordinary calls in every order of writer progress: each oversized frame is answered -32007, never dispatched, every call answered, connection stays open.",
    "WebSocket messages are single unfragmented frames.",
    "DESIGN.md §6 C07"),
  "C01": ("exploration", "ENUM",
@@ -82,7 +82,7 @@ CHECKS = {
  "C19": ("exploration", "ENUM",
    "bounded-exhaustive enumeration of HTTP methods x content-type strings, and of all body chunkings (differential against the single-frame request) through the real tower service",
    "16 method tokens (incl. near-POST tokens post/Post/pOsT/POSTS/POS) x ~36k content-type values (six accepted spellings in all letter-case variants, near misses, missing, duplicated) with status and invocation log checked against the statement; 19 bodies x every split into <=3 (thorough 4) chunks x empty/blank chunk inserted at every boundary x Content-Length present/absent, each compared (status, body, handler log) with the single-frame request of the same bytes.",
-   "For the chunking part the TowerService is called directly with an explicit frame-sequence body (hyper's framing is not in the loop); the method x content-type part also runs as raw HTTP/1.1 requests against Server::start over loopback TCP. The 1- and 2-chunk splits are repeated on a service whose max_request_body_size equals the body length. Bodies outside the 19 are not covered.",
+   "For the chunking part the TowerService is called directly with an explicit frame-sequence body (hyper's framing is not in the loop); the method x content-type part also runs as raw HTTP/1.1 requests and as HTTP/2 requests against Server::start over loopback TCP, and 2-/3-chunk splits of every body also travel as HTTP/2 DATA frames. The 1- and 2-chunk splits are repeated on a service whose max_request_body_size equals the body length. Bodies outside the 19 are not covered.",
    "DESIGN.md §6 C19"),
  "C13": ("model_checking", "HIST",
    "explicit-state BFS over operation histories of the real RpcModule, canonical state keys, BTreeMap reference model compared on every transition",
@@ -91,7 +91,7 @@ CHECKS = {
    "DESIGN.md §6 C13"),
  "C14": ("exploration", "ENUM",
    "bounded-exhaustive enumeration of (allow-list, Host header, header multiplicity, request-target) against an independent authority matcher",
-   "The empty allow-list and all 1- and 2-entry allow-lists (both orders; thorough also every 3-entry combination) over 14 patterns x 3.5k Host header strings (scheme x host x userinfo x port forms + control/non-ASCII) x multiplicity {0,1,2} x 4 request-target forms through the real HostFilterLayer over a counting probe service; soundness (admitted => some entry matches) on every case, completeness for single-entry lists and plain authorities. An SRV-TCP leg installs the layer as HTTP middleware of Server::start and sends the empty and the single-entry lists x scheme-less Host values x request-target forms as raw HTTP/1.1, the same judgement applied to (status, handler ran).",
+   "The empty allow-list and all 1- and 2-entry allow-lists (both orders; thorough also every 3-entry combination) over 14 patterns x 3.5k Host header strings (scheme x host x userinfo x port forms + control/non-ASCII) x multiplicity {0,1,2} x 4 request-target forms through the real HostFilterLayer over a counting probe service; soundness (admitted => some entry matches) on every case, completeness for single-entry lists and plain authorities. An SRV-TCP leg installs the layer as HTTP middleware of Server::start and sends the empty and the single-entry lists x scheme-less Host values x request-target forms as raw HTTP/1.1, the same judgement applied to (status, handler ran); the same lists x authorities also over HTTP/2 (:authority alone / with an equal Host header / another :authority plus the Host header).",
    "The reference reads the request-target authority both with and without its scheme (statement is silent); completeness is only demanded where the statement gives it.",
    "DESIGN.md §6 C14"),
  "C15": ("exploration", "ENUM",
